@@ -168,6 +168,8 @@ class Region(object):
         area : float
             The area of the region.
         """
+        # make sure that no patch of sky is counted twice
+        self._renorm()
         area = 0
         for d in range(1, self.maxdepth+1):
             area += len(self.pixeldict[d]) * \
